@@ -228,6 +228,9 @@ extern "C" {
 static int (*real_lock)(pthread_mutex_t*) = nullptr;
 static int (*real_unlock)(pthread_mutex_t*) = nullptr;
 static bool resolving = false;
+// set while the scheduler itself inspects the machine (state hash): every scheduled thread is suspended then, the locks the getters of a
+// peripheral take are neither scheduling points nor real locks
+static bool g_observing = false;
 static void ResolveReal() {
     if (!real_lock && !resolving) {
         resolving = true;
@@ -240,12 +243,16 @@ __attribute__((constructor)) static void ResolveAtStart() {
     ResolveReal();
 }
 int pthread_mutex_lock(pthread_mutex_t* m) {
+    if (g_observing)
+        return 0;
     if (sch::g_s.active)
         return sch::g_s.LockModel(m);
     ResolveReal();
     return real_lock ? real_lock(m) : 0;
 }
 int pthread_mutex_unlock(pthread_mutex_t* m) {
+    if (g_observing)
+        return 0;
     if (sch::g_s.active)
         return sch::g_s.UnlockModel(m);
     ResolveReal();
@@ -588,6 +595,23 @@ inline std::vector<Scenario> Scenarios() {
                      o.host_done = true;
                  },
                  [](Machine&, const Obs& o) { return InOrderOracle(o); }, 140, true});
+    // S11: the mailbox interrupt routed to the vectored line ONLY (no fixed line has anything routed): the send is still delivered
+    v.push_back({"S11-irq-echo-vectored-only",
+                 {{0x0000, {0x4180, 0x0100}}, {0x0208, kIrqHandlerEcho}, {0x0100, IrqMain(false, 0x0880)}},
+                 [](Machine& m) {
+                     m.teakra->MMIOWrite(0x20C, 0x4000);                                                        // IRQ 14 -> vectored, nothing else routed
+                     m.teakra->MMIOWrite(0x212 + 14 * 4, 0x0000), m.teakra->MMIOWrite(0x214 + 14 * 4, 0x0208); // its vector
+                 },
+                 [](Machine& m, Obs& o) {
+                     for (u16 val : {(u16)0x0E55, (u16)0x0F66}) {
+                         HostSend(m, o, 0, val);
+                         if (!HostWaitReply(m, 0))
+                             return;
+                         HostRecv(m, o, 0);
+                     }
+                     o.host_done = true;
+                 },
+                 [](Machine&, const Obs& o) { return InOrderOracle(o); }, 140, true});
     // S7: a semaphore bit raised while the host masks it, another one raised and acknowledged, then the mask lifted: the still-set bit
     // must now be signalled (host callback) - the signal is a function of (semaphore AND NOT mask) at every moment
     v.push_back({"S7-semaphore-unmask-after-clear", {{0x0000, {0x4180, 0x0100}}, {0x0006, kSemHandler42}, {0x0100, kSemMain}}, route_irq14_to_int0,
@@ -650,6 +674,12 @@ struct Harness {
         sc.setup(*m);
     }
     u64 StateHash(int host_progress_hint) {
+#ifndef VERIF_FREE_RUNNING
+        struct Observing {
+            Observing() { g_observing = true; }
+            ~Observing() { g_observing = false; }
+        } observing;
+#endif
         Bytes b;
         PutRegsVisible(b, m->regs());
         CoreSnap c = m->SaveCore();
@@ -893,7 +923,7 @@ inline void Run(const verif::Args& args, Result& res) {
                 blk.capped = completed < bound && local.violations.empty();
             },
             res);
-    res.rule = "eleven two-thread harnesses (host thread issuing SendData/RecvData/ready polls/Set/Get/Clear/MaskSemaphore, with and without re-entrant "
+    res.rule = "twelve two-thread harnesses (host thread issuing SendData/RecvData/ready polls/Set/Get/Clear/MaskSemaphore, with and without re-entrant "
                "callbacks; DSP thread executing a real polling or interrupt-driven echo / semaphore program, one Run(1) per step) are run on the real code under a "
                "deterministic scheduler that owns every pthread_mutex_lock/unlock (ownership modelled, recursive mutexes recognised), every access to the "
                "interpreter's interrupt latches, every API-call and instruction boundary and a yield in every poll loop; every schedule with at most the stated "
